@@ -22,10 +22,15 @@ def st_segment(extra_names=(), only_names=None):
         (A.STAR, A.ANY), (A.lit('.'), A.ANY), (A.mkset(False, ('c', '.'), ('c', 'a')), A.STAR), (A.lit('x'), A.mkset(False, ('p', 'digit'))),
         (A.lit('l'), A.STAR), (A.STAR, A.lit('d')), (A.lit('A'), A.STAR), (A.ANY, A.lit('b'), A.STAR),
     ])
-    alt = st.one_of(litseg, small, st.just(()))
-    grp = st.tuples(st.sampled_from('?*+@!'), st.lists(alt, min_size=1, max_size=3)).map(lambda t: (('ext', t[0], tuple(t[1])),))
-    grp2 = st.tuples(grp, st.one_of(st.just(()), small, litseg)).map(lambda t: A.merge_stars(t[0] + t[1]))
-    return st.one_of(litseg, litseg, small, small, grp, grp2)
+    alt = st.one_of(litseg, litseg, small, small, small, st.just(()))
+    solid = st.one_of(litseg, small)
+    # a group standing alone is mostly of a kind that cannot match the empty string (nullable segments are an
+    # undecided zone for several checks); groups followed by something use every kind
+    grp = st.tuples(st.sampled_from('+@!+@!?*'), st.lists(solid, min_size=1, max_size=3)).map(lambda t: (('ext', t[0], tuple(t[1])),))
+    grp_any = st.tuples(st.sampled_from('?*+@!'), st.lists(alt, min_size=1, max_size=3)).map(lambda t: (('ext', t[0], tuple(t[1])),))
+    grp2 = st.tuples(grp_any, st.one_of(small, litseg)).map(lambda t: A.merge_stars(t[0] + t[1]))
+    grp3 = st.tuples(st.one_of(small, litseg), grp_any).map(lambda t: A.merge_stars(t[0] + t[1]))
+    return st.one_of(litseg, litseg, small, small, grp, grp2, grp3)
 
 
 def st_pathpat(max_segs=4, globstar=True, globstarlong=True, trail=True, names=None):
